@@ -300,7 +300,7 @@ def run(ctx):
             ctx.mon("changed-while-in-flight", 0)
         if ctx.shard == 0:
             for t in (targets[0], targets[len(targets) // 2]):
-                tag_sweep(ctx, vfs, t, range(0, 140) if ctx.quick else range(0, 1200), (0, 1, 81, 3600, 86400))
+                tag_sweep(ctx, vfs, t, range(0, 140) if ctx.quick else range(0, 1200), (0, 1, 81, 3600, 86400, 172800.5, 864000))
                 tag_sweep(ctx, vfs, t, (121, 202, 133, 512, 1000, 1001, 65536), range(0, 200))
                 ctx.case(("tag-sweep", t[0]))
         else:
@@ -335,6 +335,25 @@ def tag_sweep(ctx, vfs, t, sizes, offsets):
             if st != 200 or exc is not None:
                 ctx.violation("plain-request-not-200", {"iface": iface, "target": url_path, "size": size}, f"{st} {exc!r}")
                 return
+            # the validators just handed out revalidate this very state, in every form ...
+            for form, hd in (("etag", [("If-None-Match", h["etag"])]), ("weak", [("If-None-Match", "W/" + h["etag"])]), ("lm", [("If-Modified-Since", h["last-modified"])]),
+                             ("list", [("If-None-Match", '"zzz", ' + h["etag"])])):
+                stf, _, _, _ = request(iface, app, url_path, hd)
+                ctx.mon("fresh-revalidates")
+                if stf != 304:
+                    ctx.violation(f"fresh-copy-not-revalidated|{form}", {"iface": iface, "target": url_path, "tag_sweep": {"held": {"size": size, "mtime_offset": off}, "now": {"size": size, "mtime_offset": off}}},
+                                  f"{stf} for {hd!r}")
+                    return
+            # ... and the date handed out for the first state of this size does not revalidate a later one (whole days later included)
+            if off == offsets[0]:
+                first_lm = h["last-modified"]
+            elif off - offsets[0] >= 1:
+                stl, _, _, _ = request(iface, app, url_path, [("If-Modified-Since", first_lm)])
+                ctx.mon("stale-304-check")
+                if stl != 200:
+                    ctx.violation("stale-304|last-modified-only|different-second|timestamp-change", {"iface": iface, "target": url_path,
+                                  "tag_sweep": {"held": {"size": size, "mtime_offset": offsets[0]}, "now": {"size": size, "mtime_offset": off}}}, f"{stl}: modified {off - offsets[0]} s after the date held")
+                    return
             other = seen.setdefault(h["etag"], (size, off))
             if other != (size, off):
                 # replay: the client holds the tag of `other`; the file is now (size, off)
@@ -445,7 +464,7 @@ def replay(ctx, case):
             ts = case["tag_sweep"]
             for t in setup(ctx):
                 if t[0] == case["iface"] and t[2] == case["target"]:
-                    tag_sweep(ctx, vfs, t, sorted({ts["held"]["size"], ts["now"]["size"]}), sorted({ts["held"]["mtime_offset"], ts["now"]["mtime_offset"]}))
+                    tag_sweep(ctx, vfs, t, sorted({ts["held"]["size"], ts["now"]["size"]}), sorted({0, ts["held"]["mtime_offset"], ts["now"]["mtime_offset"]}))
                     break
             ctx.case(1)
         finally:
